@@ -4,7 +4,9 @@ import datetime as _dt
 import math
 import os
 
-from harness import core
+import ast
+
+from harness import core, py2lean, py2lean_ext, instantiate
 from harness.core import Outcome, f2b, b2f
 
 ID = "C07"
@@ -23,6 +25,106 @@ MU_KM = 398600.8          # WGS-72, km^3/s^2 (generator only: perigee heights of
 RE_KM = 6378.135
 T0 = _dt.datetime(1, 1, 1)
 US = _dt.timedelta(microseconds=1)
+
+
+# ---------------------------------------------------------------- extraction: sgp4beta.py -> Generated/Sgp4Beta{F,R}.lean
+
+BETA_PY = os.path.join(core.REPO, "beyond", "propagators", "sgp4beta.py")
+INIT_FIELDS = ["A30", "k2", "a0", "n0", "s", "q0", "θ", "ξ", "β_0", "η", "C1", "C3", "C4", "C5", "D2", "D3", "D4", "Mdot", "ωdot", "Ωdot"]
+ELEMS = ["i0", "Ω0", "e0", "ω0", "M0", "n0", "bstar"]
+# statements of the source that are not arithmetic and are modelled elsewhere (exact text; anything else must translate)
+SKIP_INIT = ["if orbit.form != TLE:\n    raise TypeError('Not TLE')", "self.gravity = self.MODEL", "self.tle = orbit", "self._init = Init()",
+             "i0, Ω0, e0, ω0, M0, n0 = self.tle", "bstar = self.tle.bstar"]
+SKIP_PROP = ["i0, Ω0, e0, ω0, M0, n0 = self.tle", "bstar = self.tle.bstar", "_i = self._init",
+             "data = self.tle._data.copy()", "data['date'] = date", "data['form'] = 'cartesian'", "data['propagator'] = self.__class__()",
+             "return self.tle.__class__(vector, **data)"]
+
+
+def _body(fn, skip, extra_skip=lambda st: False):
+    out, seen = [], set()
+    for st in fn.body:
+        if isinstance(st, ast.Expr) and isinstance(st.value, ast.Constant):
+            continue
+        txt = ast.unparse(st)
+        if txt in skip:
+            seen.add(txt)
+            continue
+        if extra_skip(st):
+            seen.add("<extra>")
+            continue
+        out.append(st)
+    missing = [t for t in skip if t not in seen]
+    if missing:
+        raise py2lean.Untranslatable(f"expected statements not found in the source: {missing}")
+    return out
+
+
+def beta_source():
+    tree = ast.parse(open(BETA_PY).read())
+    cls = py2lean.find_function(tree, "Sgp4Beta")
+    model = next(ast.unparse(st.value) for st in cls.body if isinstance(st, ast.Assign) and st.targets[0].id == "MODEL")
+    setter = next(n for n in cls.body if isinstance(n, ast.FunctionDef) and n.name == "orbit" and any("setter" in ast.unparse(d) for d in n.decorator_list))
+    prop = next(n for n in cls.body if isinstance(n, ast.FunctionDef) and n.name == "propagate")
+    return tree, model, setter, prop
+
+
+def gen_beta():
+    tree, model, setter, prop = beta_source()
+    parts = []
+    # 1. gravity constants of the class named by Sgp4Beta.MODEL, as written in the source (k_e stays an expression)
+    gcls = py2lean.find_function(tree, model)
+    tr0 = py2lean.Tr()
+    gnames = []
+    for st in gcls.body:
+        if isinstance(st, ast.Assign):
+            n = st.targets[0].id
+            val = py2lean_ext.Rename({}).visit(st.value)
+            for g in gnames:     # class-scope references to earlier constants
+                val = _subst(val, g, "g_" + g)
+            parts.append(f"def g_{n} : R := {tr0.expr(val)}")
+            gnames.append(n)
+    if sorted(gnames) != sorted(["μ_e", "r_e", "k_e", "j2", "j3", "j4"]):
+        raise py2lean.Untranslatable(f"gravity model {model} has attributes {gnames}")
+    parts.append(f"/-- name of the gravity model selected by `Sgp4Beta.MODEL` -/\ndef gravityModelName : String := \"{model}\"\n")
+    ren = py2lean_ext.Rename({"self._init": "i_", "_i": "i_", "self.gravity": "g_"})
+    # 2. the orbit setter -> sgp4Init
+    tr = py2lean_ext.XTr()
+    body = [ren.visit(st) for st in _body(setter, SKIP_INIT)]
+    txt = tr.block2(body, "[" + ", ".join("i_" + f for f in INIT_FIELDS) + "]")
+    parts.append(f"/-- `Sgp4Beta.orbit` setter: the cached `_init` values in the order {', '.join(INIT_FIELDS)} -/\n"
+                 f"def sgp4Init ({' '.join(ELEMS)} : R) : List R :=\n{py2lean.indent(txt)}\n")
+    # 3. propagate -> pieces
+    tr = py2lean_ext.XTr()
+
+    def is_date_block(st):
+        return isinstance(st, ast.If) and "isinstance(date, Date)" in ast.unparse(st.test)
+    stmts = _body(prop, SKIP_PROP, is_date_block)
+    loop = next(st for st in stmts if isinstance(st, ast.For))
+    tr.loop_names[id(loop)] = "keplerLoop"
+    stmts = [ren.visit(st) for st in stmts]
+    tr.loop_names = {id(st): "keplerLoop" for st in stmts if isinstance(st, ast.For)}
+    tr.global_names = {"g_" + g for g in gnames}
+    inputs = ELEMS + ["tdiff"] + ["i_" + f for f in INIT_FIELDS]
+    text, info = py2lean_ext.chunks(tr, stmts, ["ecosE", "vM"], ["sgp4Mean", "sgp4Short", "sgp4Frame"], ["vector"], "sgp4Prop", inputs,
+                                    doc="`Sgp4Beta.propagate` after the date handling: elements, minutes since epoch, cached init values ↦ [x, y, z, vx, vy, vz] in m, m/s")
+    parts.append(text)
+    parts.append("/-- setter followed by propagate -/\ndef sgp4Beta (" + " ".join(ELEMS) + " tdiff : R) : List R :=\n  match sgp4Init " + " ".join(ELEMS) + " with\n  | ["
+                 + ", ".join("i_" + f for f in INIT_FIELDS) + "] => sgp4Prop " + " ".join(inputs) + "\n  | _ => []\n")
+    return "\n".join(parts), tr.loop_info, info
+
+
+def _subst(node, name, new):
+    class S(ast.NodeTransformer):
+        def visit_Name(self, n):
+            return ast.copy_location(ast.Name(id=new, ctx=n.ctx), n) if n.id == name else n
+    return S().visit(node)
+
+
+def extract(ctx):
+    body, loop, info = gen_beta()
+    ch = py2lean.instantiate(core.LEAN, "Sgp4Beta", body, "beyond/propagators/sgp4beta.py")
+    ch += instantiate.main()
+    return ch
 
 
 # ---------------------------------------------------------------- generated catalogue-like TLEs
@@ -58,7 +160,7 @@ def gen_tle(rng):
         n = rng.uniform(0.5, 16.5)
     n = round(n, 8)
     a = (MU_KM / (n * 2 * math.pi / 86400) ** 2) ** (1 / 3)
-    alt_min = rng.choice([120.0, 170.0, 225.0, 225.0, 300.0, 400.0])
+    alt_min = rng.choice([50.0, 90.0, 120.0, 170.0, 225.0, 225.0, 225.0, 300.0, 400.0])
     emax = min(0.9, 1 - (RE_KM + alt_min) / a)
     if emax <= 0:
         alt_min = 100.0
@@ -529,7 +631,89 @@ def wrapper_cases(ctx, out):
         out.sample({"request": req, "handed_to_library": list(rec.calls[0]), "model": rep}, limit=2)
 
 
+# ---------------------------------------------------------------- correspondence (2): the native model
+
+def native_cases(ctx, out):
+    """Sgp4Beta (setter + propagate) vs the Lean model translated from its source, rtol 1e-9"""
+    from beyond.io.tle import Tle
+    from beyond.dates import Date, timedelta
+    from beyond.propagators.sgp4beta import Sgp4Beta
+    rng = ctx.rng
+    reqs, meta = [], []
+    with eop():
+        k = 0
+        while k < ctx.n(500, 12000):
+            l1, l2, info = gen_tle(rng)
+            if info["n"] < 6.4 and rng.random() < 0.9:
+                continue        # the native model has no deep-space part; a few such inputs are kept (it computes the same formulas on them)
+            k += 1
+            orb = Tle(l1 + "\n" + l2).orbit()
+            nat = Sgp4Beta()
+            nat.orbit = orb
+            elems = [float(x) for x in orb] + [float(orb.bstar)]
+            init = [float(getattr(nat._init, f)) for f in INIT_FIELDS]
+            reqs.append("sgp4init " + " ".join(f2b(x) for x in elems))
+            meta.append(("init", init, {"line1": l1, "line2": l2}, None))
+            low = (init[2] * (1 - elems[2]) - 1) * RE_KM
+            out.count(key=(l1, l2, "init"), kind="native-init", perigee="<98" if low < 98 else "<156" if low < 156 else ">=156", ecc="e<=1e-4" if elems[2] <= 1e-4 else "e>1e-4",
+                      retro=info["inc"] > 90)
+            for _j in range(2):
+                off = gen_offset_us(rng)
+                label = rng.choice(LABELS)
+                use_td = rng.random() < 0.2
+                if use_td:
+                    arg = timedelta(microseconds=off)
+                    tdiff = arg.total_seconds() / 60.0
+                else:
+                    arg = orb.date + timedelta(microseconds=off)
+                    if label != "UTC":
+                        arg = arg.change_scale(label)
+                    tdiff = (arg - orb.date).total_seconds() / 60.0
+                real = [float(x) for x in nat.propagate(arg)]
+                ii = nat._init
+                tempa = 1 - ii.C1 * tdiff - ii.D2 * tdiff ** 2 - ii.D3 * tdiff ** 3 - ii.D4 * tdiff ** 4
+                if not abs(tempa - 1) < 0.2:
+                    # the drag polynomial has left its range of validity (object decayed / radius of 1e16 m): the formulas are
+                    # ill-conditioned there and a last-bit difference of libm is amplified beyond any tolerance
+                    out.tally("native-propagate=drag-polynomial-blown-up-skipped")
+                    continue
+                reqs.append("sgp4beta " + " ".join(f2b(x) for x in elems + [tdiff]))
+                meta.append(("prop", real, {"line1": l1, "line2": l2, "offset_us": off, "label": label, "tdiff_min": tdiff}, info))
+                out.count(key=(l1, l2, off), nontrivial=off != 0, kind="native-propagate", sign="t<0" if off < 0 else "t>=0", ecc="e<=1e-4" if elems[2] <= 1e-4 else "e>1e-4",
+                          retro=info["inc"] > 90, arg="timedelta" if use_td else "date", deep=info["n"] < 6.4)
+    reqs.append("sgp4beta 1 2 3")
+    meta.append(("bad", None, None, None))
+    replies = core.Driver().run(reqs)
+    for req, (kind, real, inp, info), rep in zip(reqs, meta, replies):
+        if kind == "bad":
+            if rep != "bad-op":
+                out.fail("native-model", "model accepts a truncated request", req, expected=rep)
+            continue
+        if not rep or not rep[0].isdigit():
+            out.fail("native-model", "model rejected the request", inp, observed=real, expected=rep)
+            continue
+        model = [b2f(t) for t in rep.split()]
+        if len(model) != len(real):
+            out.fail("native-model", "model returned a different number of values", inp, observed=real, expected=model)
+            continue
+        if kind == "init":
+            bad = [INIT_FIELDS[j] for j, (a, b) in enumerate(zip(real, model)) if not core.close(a, b, rtol=1e-9, atol=1e-300)]
+            if bad:
+                out.fail("native-init", f"cached init values {bad} differ between Sgp4Beta and the Lean model", inp, observed=dict(zip(INIT_FIELDS, real)), expected=dict(zip(INIT_FIELDS, model)))
+        else:
+            if not all(map(math.isfinite, real)) and not all(map(math.isfinite, model)):
+                out.tally("native-propagate=non-finite-both")
+                continue
+            rs, vs = max(norm(real[:3]), norm(model[:3])), max(norm(real[3:]), norm(model[3:]))
+            dp, dv = dist(real, model)
+            # the state depends on the mean longitude ~ n t (thousands of radians): rounding differences of 1e-16 relative there are ~1e-13 rad
+            if not (dp <= 1e-9 * rs and dv <= 1e-9 * vs):
+                out.fail("native-propagate", "state differs between Sgp4Beta.propagate and the Lean model", inp, observed=real, expected=model, dpos_rel=dp / rs)
+            out.sample({"request": req[:60] + "…", "impl": real, "model": model}, limit=4)
+
+
 def correspondence(ctx):
     out = Outcome()
     wrapper_cases(ctx, out)
+    native_cases(ctx, out)
     return out
